@@ -432,6 +432,50 @@ func ruleC16ChainLinks(cx *Ctx) []Obligation {
 				reads = append(reads, rd{ia.X, ia.Index, b})
 			}
 		}
+		// chain[i+1] read in the loop while the previous element is carried in a φ that starts as chain[0]: the same
+		// pair, written as a running (prev, next) walk — add the implied read chain[i]
+		for _, c := range append([]rd{}, reads...) {
+			one, ok := polyConst(polySub(poly(c.idx), ipoly{}))
+			_ = one
+			_ = ok
+			la := fi.LoopsOf[c.b.Index]
+			l := la[len(la)-1]
+			if l.Phi == nil {
+				continue
+			}
+			if d, ok := polyConst(polySub(poly(c.idx), ipoly{l.Phi.Name(): 1})); !ok || d != 1 {
+				continue
+			}
+			for _, hi := range l.Header.Instrs {
+				phi, ok := hi.(*ssa.Phi)
+				if !ok {
+					break
+				}
+				if phi == l.Phi || !isQEType(phi.Type()) {
+					continue
+				}
+				okInit, okBack := false, false
+				for i, pb := range l.Header.Preds {
+					e := stripCopies(phi.Edges[i])
+					ld, isLd := e.(*ssa.UnOp)
+					if !isLd || ld.Op != token.MUL {
+						continue
+					}
+					ia, isIA := ld.X.(*ssa.IndexAddr)
+					if !isIA || ia.X != c.x {
+						continue
+					}
+					if l.Blocks[pb] {
+						okBack = ipolyEq(poly(ia.Index), poly(c.idx))
+					} else if k, isC := constInt(ia.Index); isC && k == 0 {
+						okInit = true
+					}
+				}
+				if okInit && okBack {
+					reads = append(reads, rd{c.x, l.Phi, c.b})
+				}
+			}
+		}
 		done := map[ssa.Value]bool{}
 		for _, a := range reads {
 			for _, c := range reads {
@@ -441,9 +485,17 @@ func ruleC16ChainLinks(cx *Ctx) []Obligation {
 				if d, ok := polyConst(polySub(poly(c.idx), poly(a.idx))); !ok || d != 1 {
 					continue
 				}
-				// only the function that closes the chain (reads Z(gζ)) is of interest
+				// only the chain that is closed with Z(gζ) is of interest: built here, or by a helper of the package
 				if !readsField(fn, "PlonkZsNext") {
-					continue
+					viaHelper := false
+					if hc, ok := stripCopies(a.x).(*ssa.Call); ok {
+						if g := hc.Common().StaticCallee(); g != nil && g.Blocks != nil && g.Pkg == fn.Pkg && readsField(g, "PlonkZsNext") {
+							viaHelper = true
+						}
+					}
+					if !viaHelper {
+						continue
+					}
 				}
 				done[a.x] = true
 				found++
